@@ -10,6 +10,9 @@ Local Open Scope Z_scope.
 (* ================================================================================================ *)
 (* Part 1: encoding                                                                                  *)
 
+Lemma Ret_inj {A} (a b : A) : Ret a = Ret b -> a = b.
+Proof. intros H. injection H. auto. Qed.
+
 Lemma pow256_32 : (256 ^ N.of_nat 32)%N = Z.to_N (2 ^ 256).
 Proof. vm_compute. reflexivity. Qed.
 
@@ -265,13 +268,11 @@ Section Recover.
         let q := smul (d + ir * (z - z')) G in
         match coords q with None => Raise E_ENCODING | Some _ => Ret (q, c) end.
   Proof.
-    unfold signature_for_message_hash, sign_with_recid.
-    destruct (z =? 0); [discriminate|].
-    destruct (sloop fuel (gen_k n d z) d z) as [[[r s] recid]| |] eqn:Es; try discriminate.
-    cbn [bind].
-    destruct (to_bytes_32 r) as [rb| |] eqn:Erb; try discriminate. cbn [bind].
-    destruct (to_bytes_32 s) as [sb| |] eqn:Esb; try discriminate. cbn [bind]. cbv zeta.
-    intros H. injection H as <-.
+    intros H. unfold signature_for_message_hash in H.
+    apply bind_ret_inv in H. destruct H as ([[r s] recid] & Es & H). cbv beta iota zeta in H.
+    apply bind_ret_inv in H. destruct H as (rb & Erb & H).
+    apply bind_ret_inv in H. destruct H as (sb & Esb & H). apply Ret_inj in H. subst text.
+    unfold sign_with_recid in Es. destruct (z =? 0); [discriminate|].
     destruct (sign_loop_inv _ _ _ _ _ _ _ Es) as (k & x & y & Ec & Hk & Hr & Hr0 & Hs & Hs0 & Hrec).
     pose proof (coordsG_range _ _ _ Ec) as Hx.
     pose proof (Z.mod_pos_bound x n ltac:(lia)) as Br. rewrite <- Hr in Br.
@@ -287,7 +288,7 @@ Section Recover.
     intros z'. unfold pair_for_message_hash.
     assert (Hrecid : 0 <= recid <= 3).
     { rewrite Hrec. destruct (land1_cases y) as [-> | ->]; destruct (n <? x); lia. }
-    Show. rewrite (decode_encode _ r s rb sb recid c Hrecid eq_refl Erb Esb). cbn [bind].
+    rewrite (decode_encode _ r s rb sb recid c Hrecid eq_refl Erb Esb). cbn [bind].
     replace ((1 <=? r) && (r <? n) && (1 <=? s) && (s <? n)) with true by lia. cbn [negb].
     (* the abscissa is restored *)
     assert (Hxx : (if 1 <? recid then r + n else r) = x).
